@@ -776,8 +776,37 @@ pub fn oracle(files: &[FileM], st: &mut Stats) -> Verdict {
         conv.default_system(),
         serde_json::to_string(files).unwrap()
     );
-    if let RefOutcome::Accept(units, _best, fracs) = &refr {
+    if let RefOutcome::Accept(units, best, fracs) = &refr {
         let actual: Vec<_> = conv.all_units().collect();
+        // every unit a (final) best list names is held by the converter's list, and nothing else is
+        let position = |u: &cooklang::convert::Unit| actual.iter().position(|a| std::ptr::eq(&**a as *const cooklang::convert::Unit, u as *const cooklang::convert::Unit));
+        for q in 0..5 {
+            let Some(b) = &best[q] else { continue };
+            let (metric, imperial): (&Vec<String>, &Vec<String>) = match b {
+                BestM::Unified(v) => (v, v),
+                BestM::BySystem { metric, imperial } => (metric, imperial),
+            };
+            let both: Vec<String> = match b {
+                BestM::Unified(v) => v.clone(),
+                BestM::BySystem { metric, imperial } => metric.iter().chain(imperial).cloned().collect(),
+            };
+            for (sys, keys) in [(Some(System::Metric), metric.clone()), (Some(System::Imperial), imperial.clone()), (None, both)] {
+                let mut expected: Vec<usize> = keys.iter().filter_map(|k| conv.find_unit(k)).filter_map(|u| position(&u)).collect();
+                expected.sort();
+                expected.dedup();
+                let mut got: Vec<usize> = conv.best_units(pq(q), sys).iter().filter_map(|u| position(u)).collect();
+                got.sort();
+                got.dedup();
+                vensure!(
+                    expected == got,
+                    "c16.best-list-content",
+                    "best units of {} for {sys:?}: the final list names {keys:?} = units {expected:?}, the converter holds units {got:?}; files {}",
+                    QUANTITIES[q],
+                    serde_json::to_string(files).unwrap()
+                );
+            }
+            st.class_if(metric.len() > 1 || imperial.len() > 1, "best list with several units compared with the layers");
+        }
         vensure!(actual.len() == units.len(), "c16.unit-count", "converter has {} units, model {}; files {}", actual.len(), units.len(), serde_json::to_string(files).unwrap());
         for (i, (a, m)) in actual.iter().zip(units).enumerate() {
             let v = |x: &Vec<std::sync::Arc<str>>| x.iter().map(|s| s.to_string()).collect::<Vec<_>>();
